@@ -15,6 +15,11 @@ func TypeName(t types.Type) string {
 	return types.TypeString(t, func(p *types.Package) string { return Rel(p.Path()) })
 }
 
+// ShortType renders a type with package names (not paths) as qualifiers.
+func ShortType(t types.Type) string {
+	return types.TypeString(t, func(p *types.Package) string { return p.Name() })
+}
+
 // CalleeName gives the canonical name of the callee of a call instruction:
 // a static function ("internal/x.(*T).M"), an interface method
 // ("invoke internal/x.Iface.M"), a builtin ("builtin len") or "dynamic".
@@ -60,9 +65,19 @@ func exprDepth(v ssa.Value, d int, seen map[ssa.Value]bool) string {
 		}
 		return v.Value.String()
 	case *ssa.Parameter:
-		return v.Name()
+		// parameters, captured variables and address-taken locals are rendered by
+		// position/type, never by name: renaming a local must not change a verdict
+		idx := -1
+		if v.Parent() != nil {
+			for i, p := range v.Parent().Params {
+				if p == v {
+					idx = i
+				}
+			}
+		}
+		return fmt.Sprintf("{%d:%s}", idx, ShortType(v.Type()))
 	case *ssa.FreeVar:
-		return v.Name()
+		return "{free:" + ShortType(v.Type()) + "}"
 	case *ssa.Global:
 		return Rel(v.Pkg.Pkg.Path()) + "." + v.Name()
 	case *ssa.Function:
@@ -70,10 +85,11 @@ func exprDepth(v ssa.Value, d int, seen map[ssa.Value]bool) string {
 	case *ssa.Builtin:
 		return "builtin " + v.Name()
 	case *ssa.Alloc:
-		if v.Comment != "" {
-			return "&" + v.Comment
+		t := v.Type()
+		if p, ok := t.Underlying().(*types.Pointer); ok {
+			t = p.Elem()
 		}
-		return "&alloc"
+		return "&{" + ShortType(t) + "}"
 	case *ssa.FieldAddr:
 		return "&" + fieldBase(r(v.X)) + "." + fieldName(v.X.Type(), v.Field)
 	case *ssa.Field:
